@@ -261,4 +261,82 @@ theorem rehydrate_filterMap {disp : TagPair} (h : disp.ok = true) (within : Nat 
       rw [ih]
       simp [List.filter, hw, List.filterMap_cons, expectOne]
 
+/-! ## Accumulator fields of decoders (bit-mask pre-filters such as `rs_filter`) -/
+
+theorem and_or_self_right (c acc : Nat) : c &&& (acc ||| c) = c := by
+  apply Nat.eq_of_testBit_eq; intro i
+  simp only [Nat.testBit_and, Nat.testBit_or]
+  cases c.testBit i <;> simp
+
+theorem and_or_mono (c acc d : Nat) (h : c &&& acc = c) : c &&& (acc ||| d) = c := by
+  apply Nat.eq_of_testBit_eq; intro i
+  have hi := congrArg (fun n => n.testBit i) h
+  simp only [Nat.testBit_and, Nat.testBit_or] at hi ⊢
+  cases hc : c.testBit i <;> simp_all
+
+theorem DecodeField.step_mono (f : DecodeField) (c acc : Nat) (e : Nat × Nat) (h : c &&& acc = c) :
+    c &&& f.step acc e = c := by
+  unfold DecodeField.step
+  split
+  · split
+    · exact and_or_mono c acc e.2 h
+    · exact h
+  · split
+    · exact and_or_mono c acc e.2 h
+    · exact h
+
+theorem DecodeField.foldl_mono (f : DecodeField) (c : Nat) : ∀ (els : List (Nat × Nat)) (acc : Nat),
+    c &&& acc = c → c &&& els.foldl f.step acc = c
+  | [], _, h => h
+  | e :: es, acc, h => foldl_mono f c es (f.step acc e) (f.step_mono c acc e h)
+
+/-- A kept element's bits are in the mask right after its own step. -/
+theorem DecodeField.step_covers (f : DecodeField)
+    (hok : decide (f.uniform > 0) = true ∨ ∀ a ∈ f.arms, a.yields = true → a.updates = true)
+    (acc : Nat) (e : Nat × Nat) (hk : f.keeps e = true) : e.2 &&& f.step acc e = e.2 := by
+  unfold DecodeField.keeps at hk
+  unfold DecodeField.step
+  split at hk
+  · rename_i a ha
+    have : (decide (f.uniform > 0) || a.updates) = true := by
+      rcases hok with hu | harms
+      · simp [hu]
+      · have hm : a ∈ f.arms := List.mem_of_getElem? ha
+        simp [harms a hm hk]
+    simp only [this, if_true]
+    exact and_or_self_right _ _
+  · exact absurd hk (by simp)
+
+theorem DecodeField.foldl_covers (f : DecodeField)
+    (hok : decide (f.uniform > 0) = true ∨ ∀ a ∈ f.arms, a.yields = true → a.updates = true) :
+    ∀ (els : List (Nat × Nat)) (acc : Nat) (e : Nat × Nat), e ∈ f.kept els →
+      e.2 &&& els.foldl f.step acc = e.2
+  | [], _, e, h => by simp [DecodeField.kept] at h
+  | x :: xs, acc, e, h => by
+    simp only [List.foldl_cons]
+    unfold DecodeField.kept at h
+    by_cases hx : f.keeps x = true
+    · rw [List.filter_cons_of_pos hx] at h
+      rcases List.mem_cons.mp h with rfl | h'
+      · exact f.foldl_mono _ xs _ (f.step_covers hok acc _ hx)
+      · exact foldl_covers f hok xs _ e h'
+    · rw [List.filter_cons_of_neg hx] at h
+      exact foldl_covers f hok xs _ e h
+
+/-- From the decidable check to the hypothesis of `foldl_covers`. -/
+theorem DecodeField.ok_acc {f : DecodeField} (hk : f.kind = 1) (h : f.ok = true) :
+    decide (f.uniform > 0) = true ∨ ∀ a ∈ f.arms, a.yields = true → a.updates = true := by
+  unfold DecodeField.ok at h
+  simp only [hk] at h
+  simp only [Bool.or_eq_true, Bool.and_eq_true, List.all_eq_true] at h
+  rcases h with h | ⟨_, h⟩
+  · exact absurd h (by decide)
+  · rcases h with h | ⟨_, h⟩
+    · exact Or.inl h
+    · refine Or.inr fun a ha hy => ?_
+      have := h a ha
+      simp [DecodeArm.ok, hy] at this
+      exact this
+
+
 end Kanidm.StoreCodec
